@@ -7,7 +7,11 @@ import (
 
 func genAmbient(t *rapid.T) int {
 	if rapid.Bool().Draw(t, "hasAmbient") {
-		return rapid.IntRange(0, busmodel.AmbAll).Draw(t, "ambient")
+		a := rapid.IntRange(0, busmodel.AmbAll).Draw(t, "ambient")
+		if rapid.IntRange(0, 3).Draw(t, "nilOpts") == 0 {
+			a |= busmodel.AmbNils
+		}
+		return a
 	}
 	return 0
 }
